@@ -71,6 +71,12 @@ pub fn advance_clock(by: Duration) {
     }
 }
 
+/// Stands for `std::thread::sleep` in `send_packet`: the pause between the copies of a datagram
+/// moves the virtual clock (in the solver's run and in native replays alike).
+pub fn sleep(by: Duration) {
+    advance_clock(by);
+}
+
 pub mod fs {
     use super::{CAP, FS};
     use std::path::Path;
